@@ -3,6 +3,7 @@ import Pyrealb.Lemmas.ClauseFrNesting
 import Pyrealb.Lemmas.ClauseFrClause
 import Pyrealb.Lemmas.ClauseFrFinite
 import Pyrealb.Lemmas.ClauseFrDepClause
+import Pyrealb.Lemmas.ClauseFrIntPhrase
 import Pyrealb.Model.ClauseFrRealize
 /-! # C05 — French clause transformations: negation, auxiliaries, clitics, inversion
 
@@ -552,7 +553,7 @@ def expectedChain (sp : Spec) : List (Str × Tense) :=
 /-- **C05 nesting**: after `processTyp` (passive, progressive, modality, negation) the verbs of the VP are, in order,
     exactly the declared nesting — for every verb, tense, subject and every list of complements -/
 def nesting_order : Prop :=
-  ∀ (sp : Spec) (sel vp : List El) (e : Str), sp.typ.int = none →
+  ∀ (sp : Spec) (sel vp : List El) (e : Str), IntOk sp →
     (∀ m, sp.typ.mod = some m → (modalLemma m).isSome = true) →
     phraseTyped sp = .ok (sel, vp, e) → verbChain vp = expectedChain sp
 
@@ -670,12 +671,12 @@ theorem stageNeg_chain (sp : Spec) (s : List El × List El) (c : List (Str × Te
     · exact ⟨x, rest, hs, hx⟩
 
 theorem nesting_order_holds : nesting_order := by
-  intro sp sel vp e hint hmod h
+  intro sp sel vp e hok hmod h
+  have hall := h
   unfold phraseTyped at h
   obtain ⟨s1, h1, h⟩ := bind_ok _ _ _ h
   obtain ⟨s2, h2, h⟩ := bind_ok _ _ _ h
   obtain ⟨s3, h3, h⟩ := bind_ok _ _ _ h
-  simp only [hint, pure, Except.pure, Except.ok.injEq, Prod.mk.injEq] at h
   have h0vp : (phraseElems sp).1.any El.isVP = true := by simp [phraseElems, El.isVP]
   have h0 : ChainIs (phraseElems sp).2 [(sp.verb.lemma, sp.t)] :=
     ⟨_, _, rfl, by simp [compEl_noV, Spec.verbT, mkV]⟩
@@ -683,8 +684,30 @@ theorem nesting_order_holds : nesting_order := by
   obtain ⟨hv2, hc2⟩ := stageProg_chain sp _ s2 _ hv1 hc1 h2
   obtain ⟨_, hc3⟩ := stageMod_chain sp _ s3 _ hmod hv2 hc2 h3
   obtain ⟨x, r, hs, hx⟩ := stageNeg_chain sp s3 _ hc3
-  rw [← h.2.1, hs]
-  exact hx
+  have hch : verbChain (stageNeg sp s3).2 = expectedChain sp := by rw [hs]; exact hx
+  cases hint : sp.typ.int with
+  | none =>
+    simp only [hint, pure, Except.pure, Except.ok.injEq, Prod.mk.injEq] at h
+    rw [← h.2.1]; exact hch
+  | some i =>
+    simp only [hint] at h
+    -- the shape of the S and of the VP before the interrogative is processed
+    have hs1 := stagePas_selShape sp _ s1 (selShape_elems sp) h1
+    have hp1 := stagePas_vpi sp _ s1 (vpi_elems sp) h1
+    have hp2 := stageProg_vpi sp _ s2 hp1 h2
+    have hp3 := stageMod_vpi sp _ s3 hp2 h3
+    have hf2 := stageProg_fst sp _ s2 h2
+    have hf3 := stageMod_fst sp _ s3 h3
+    have hs3 : SelShape s3.1 := by rw [hf3, hf2]; exact hs1
+    have hs4 : SelShape (stageNeg sp s3).1 := by rw [stageNeg_fst]; exact hs3
+    have hp4 := stageNeg_vpi sp s3 (selShape_hasVP _ hs3) hp3
+    have hsubj : intGroupSubj.contains i = true → ∃ si, firstIdx isSubjEl (stageNeg sp s3).1 = some si := by
+      intro hi
+      obtain ⟨hp, hsome⟩ := hok i hint hi
+      have e1 := stagePas_off sp _ s1 hp h1
+      rw [stageNeg_fst, hf3, hf2, e1]
+      exact ⟨0, phraseElems_subj sp hsome⟩
+    exact (processIntPhrase_inv i _ (expectedChain sp) _ _ sel vp e hs4 ⟨⟨false, hp4⟩, hch⟩ hsubj h).2.2
 
 /-- non-vacuity: « pouvoir être en train d'être mangé » -/
 def nestingWitness : Spec :=
@@ -711,9 +734,12 @@ theorem tempsAux_matches_rules_tbl : ∀ p ∈ compoundRules, lookup p.1 tempsAu
 /-- every compound tense of the code has an auxiliary tense among the 19 tense codes -/
 theorem compound_tenses_tbl : ∀ t ∈ compoundList, ((lookup t tempsAux).bind Tense.ofStr).isSome = true := by decide
 
-/-! ## the position clauses on the WHOLE CLAUSE (constituent notation, declarative or exclamative sentence)
+/-! ## the position clauses on the WHOLE CLAUSE (constituent notation; declarative, exclamative or interrogative)
 
-`phraseTyped_inv` + `pronominalizeVP_esig` + `realVPToks_head` show that `S(subj, VP(V, …)).typ(..)` hands
+`IntOk sp` only leaves out `wos` / `was` on a clause without subject or in the passive (there `processInt` deletes the
+last element of the S — the VP itself — and no verb is realized at all).
+
+`phraseTyped_inv_any` (`processIntPhrase_inv` for the interrogative) + `pronominalizeVP_esig` + `realVPToks_head` show that `S(subj, VP(V, …)).typ(..)` hands
 `doPronounPlacement` a list whose FIRST token is the first token of the first verb, which carries `neg2`; every other
 verb token is clean. The contract theorems above then apply with an empty prefix, and the S only puts verb-free
 tokens in front. -/
@@ -728,19 +754,21 @@ def FirstVerb (Q : VT → Prop) (sp : Spec) : Prop :=
 def FirstVerbFinite (sp : Spec) : Prop := FirstVerb (fun y => y.t ≠ .b) sp
 
 /-- **C05 `ne`, clause level**: for every clause specification (any subject, verb, tense, complements in any number and
-    order, pronominalized or not, passive / progressive / modality / reflexive flags) with a negation and no
-    interrogative, the realized clause is `a ++ ne :: clitics ++ verb :: b` with no verb in `a` -/
+    order, pronominalized or not, passive / progressive / modality / reflexive flags, any interrogative) with a
+    negation, the realized clause is `a ++ ne :: clitics ++ verb :: b` with no verb in `a` -/
 def ne_position_clause : Prop :=
   ∀ (sp : Spec) (nv : NegV) (toks : List Tok) (e : Str),
-    sp.typ.int = none → sp.typ.neg = some nv → FirstVerbFinite sp → phraseToks sp = .ok (toks, e) →
+    IntOk sp → sp.typ.neg = some nv → FirstVerbFinite sp → phraseToks sp = .ok (toks, e) →
     ∃ a cs x f b, toks = a ++ .adv ne :: cs ++ .v x f :: b ∧ (∀ c ∈ cs, IsCliticFn c) ∧ (∀ t ∈ a, t.isV = false) ∧
       x.neg2 = none
 
-/-- **C05 second negative word, clause level**: …and it is immediately followed by the second negative word -/
+/-- **C05 second negative word, clause level**: …and it is followed by the second negative word — immediately, or
+    behind the inverted subject pronoun of an interrogative (at most one token in between; none without `int`) -/
 def neg2_position_clause : Prop :=
   ∀ (sp : Spec) (nv : NegV) (toks : List Tok) (e : Str),
-    sp.typ.int = none → sp.typ.neg = some nv → nv.word2 ≠ [] → FirstVerbFinite sp → phraseToks sp = .ok (toks, e) →
-    ∃ a x f b, toks = a ++ .v x f :: .q nv.word2 :: b ∧ (∀ t ∈ a, t.isV = false)
+    IntOk sp → sp.typ.neg = some nv → nv.word2 ≠ [] → FirstVerbFinite sp → phraseToks sp = .ok (toks, e) →
+    ∃ a x f mid b, toks = a ++ .v x f :: mid ++ .q nv.word2 :: b ∧ (∀ t ∈ a, t.isV = false) ∧ mid.length ≤ 1 ∧
+      (sp.typ.int = none → mid = [])
 
 theorem tailOk_atFirst (tl : List Tok) (h : ∀ t ∈ tl, TokTailOk t) : AtFirstVerb [] tl :=
   ⟨(by intro t ht; cases ht), (by
@@ -750,14 +778,22 @@ theorem tailOk_atFirst (tl : List Tok) (h : ∀ t ∈ tl, TokTailOk t) : AtFirst
 
 /-- the list handed to `doPronounPlacement` by the VP, and the verb-free S prefix -/
 theorem phrase_placement_input (Q : VT → Prop) (sp : Spec) (toks : List Tok) (e : Str) (w : Option Str)
-    (hint : sp.typ.int = none) (hw : sp.typ.neg.map NegV.word2 = w) (hf : FirstVerb Q sp)
+    (hok : IntOk sp) (hw : sp.typ.neg.map NegV.word2 = w) (hf : FirstVerb Q sp)
     (h : phraseToks sp = .ok (toks, e)) :
-    ∃ pre y f tl placed, (∀ t ∈ pre, t.isV = false) ∧ (∀ t ∈ tl, TokTailOk t) ∧ y.neg2 = w ∧ y.lier = false ∧
+    ∃ pre y f tl placed, (∀ t ∈ pre, t.isV = false) ∧ (∀ t ∈ tl, TokTailOk t) ∧ y.neg2 = w ∧
+      (sp.typ.int = none → y.lier = false) ∧
       f ≠ [] ∧ Q y ∧ placePronouns sp.typ.refl (.v y f :: tl) = .ok placed ∧
       toks = removeEmpty (pre ++ placed) := by
   unfold phraseToks at h
   obtain ⟨⟨sel, vp, endS⟩, hty, h⟩ := bindE_ok _ _ _ h
-  obtain ⟨hsel, hvpi, _⟩ := phraseTyped_inv sp sel vp endS hint hty
+  obtain ⟨hsel, b, hvpi⟩ := phraseTyped_inv_any sp sel vp endS hok hty
+  have hb0 : sp.typ.int = none → b = false := by
+    intro hi
+    obtain ⟨x0, r0, e0, _, l0, _⟩ := (phraseTyped_inv sp sel vp endS hi hty).2.1
+    obtain ⟨x1, r1, e1, _, l1, _⟩ := hvpi
+    rw [e0] at e1
+    cases e1
+    rw [← l1, l0]
   simp only at h
   obtain ⟨toks', hreal, h⟩ := bindE_ok _ _ _ h
   simp only [pure, Except.pure, Except.ok.injEq, Prod.mk.injEq] at h
@@ -774,10 +810,10 @@ theorem phrase_placement_input (Q : VT → Prop) (sp : Spec) (toks : List Tok) (
   rw [hrawe] at hrw
   simp only [List.cons.injEq] at hrw
   obtain ⟨rfl, rfl⟩ := hrw
-  have hy : y.neg2 = w ∧ y.lier = false := by
+  have hy : y.neg2 = w ∧ (sp.typ.int = none → y.lier = false) := by
     rcases hhd with ⟨l, c, hq⟩ | ⟨y', f', hq, h1, h2, _⟩
     · cases hq
-    · cases hq; exact ⟨by rw [h1, hxn, hw], by rw [h2, hxl]⟩
+    · cases hq; exact ⟨by rw [h1, hxn, hw], fun hi => by rw [h2, hxl, hb0 hi]⟩
   have hfe : (Tok.v y f).form.isEmpty = false := by cases hf' : f <;> simp_all [Tok.form]
   -- the empty realizations removed before placement: none at the head; the tail stays clean
   have hre : removeEmpty raw = .v y f :: tl.filter (fun t => !t.form.isEmpty) := by
@@ -800,9 +836,9 @@ theorem filter_noV (l : List Tok) (p : Tok → Bool) (h : ∀ t ∈ l, t.isV = f
   fun t ht => h t (List.mem_filter.mp ht).1
 
 theorem ne_position_clause_holds : ne_position_clause := by
-  intro sp nv toks e hint hneg hf h
+  intro sp nv toks e hok hneg hf h
   obtain ⟨pre, y, f, tl, placed, hpre, htl, hyn, _, hfne, hyt, hpl, htoks⟩ :=
-    phrase_placement_input _ sp toks e (some nv.word2) hint (by simp [hneg]) hf h
+    phrase_placement_input _ sp toks e (some nv.word2) hok (by simp [hneg]) hf h
   obtain ⟨cs, after, hout, hcs⟩ := ne_position_holds sp.typ.refl [] tl y f nv.word2 placed (tailOk_atFirst tl htl) hyn hyt
     (by simpa using hpl)
   have hfe : (Tok.v { y with neg2 := none } f).form.isEmpty = false := by cases hf' : f <;> simp_all [Tok.form]
@@ -815,26 +851,27 @@ theorem ne_position_clause_holds : ne_position_clause := by
     exact hcs c (List.mem_filter.mp hc).1
 
 theorem neg2_position_clause_holds : neg2_position_clause := by
-  intro sp nv toks e hint hneg hw hf h
+  intro sp nv toks e hok hneg hw hf h
   obtain ⟨pre, y, f, tl, placed, hpre, htl, hyn, hyl, hfne, hyt, hpl, htoks⟩ :=
-    phrase_placement_input _ sp toks e (some nv.word2) hint (by simp [hneg]) hf h
+    phrase_placement_input _ sp toks e (some nv.word2) hok (by simp [hneg]) hf h
   obtain ⟨before, mid, after, hout, hmid, hbefore⟩ := neg2_position_finite_holds sp.typ.refl [] tl y f nv.word2 placed
     (tailOk_atFirst tl htl) hyn hyt (by simpa using hpl)
-  have hmid0 : mid = [] := by
-    rw [hyl] at hmid
-    cases mid <;> simp_all
-  subst hmid0
   have hfe : (Tok.v { y with neg2 := none } f).form.isEmpty = false := by cases hf' : f <;> simp_all [Tok.form]
   have hqe : (Tok.q nv.word2).form.isEmpty = false := by cases hw' : nv.word2 <;> simp_all [Tok.form]
   rw [htoks, hout, removeEmpty_filter _ ⟨.q nv.word2, by simp, hqe⟩]
   refine ⟨(pre ++ before).filter (fun t => !t.form.isEmpty), { y with neg2 := none }, f,
-    after.filter (fun t => !t.form.isEmpty), ?_, ?_⟩
+    mid.filter (fun t => !t.form.isEmpty), after.filter (fun t => !t.form.isEmpty), ?_, ?_, ?_, ?_⟩
   · simp [List.filter_append, List.filter_cons, hfe, hqe]
   · apply filter_noV
     intro t ht
     rcases List.mem_append.mp ht with ht | ht
     · exact hpre t ht
     · exact hbefore t ht
+  · have := List.length_filter_le (fun t : Tok => !t.form.isEmpty) mid
+    split at hmid <;> omega
+  · intro hi
+    rw [hyl hi] at hmid
+    cases mid <;> simp_all
 
 /-- executable form of `FirstVerbFinite` -/
 def firstVerbFiniteB (sp : Spec) : Bool :=
@@ -869,21 +906,21 @@ example : (phraseToks ilNeLeLuiDonnePas).map (fun r => r.1.map Tok.form) =
 def FirstVerbMain (sp : Spec) : Prop :=
   FirstVerb (fun y => y.isMod = false ∧ y.isProg = false ∧ tableFor y ≠ .ipPos) sp
 
-/-- **C05 clitic order, clause level** (constituent notation, no interrogative): whatever complements are given, in
+/-- **C05 clitic order, clause level** (constituent notation, any interrogative): whatever complements are given, in
     whatever order, pronominalized or not, the realized clause is `a ++ run ++ verb :: b` with no verb in `a ++ run`
     and `run` — `ne`, the reflexive pronoun, every clitic the scan reaches — sorted by the rank table in force -/
 def clitic_order_clause : Prop :=
   ∀ (sp : Spec) (toks : List Tok) (e : Str),
-    sp.typ.int = none → FirstVerbMain sp → phraseToks sp = .ok (toks, e) →
+    IntOk sp → FirstVerbMain sp → phraseToks sp = .ok (toks, e) →
     ∃ a run x f b tb, toks = a ++ run ++ .v x f :: b ∧ (∀ t ∈ a ++ run, t.isV = false) ∧ SortedBy (rankOf tb) run
 
 theorem sortedBy_filter {α} (k : α → Nat) (p : α → Bool) (l : List α) (h : SortedBy k l) : SortedBy k (l.filter p) :=
   List.Pairwise.filter p h
 
 theorem clitic_order_clause_holds : clitic_order_clause := by
-  intro sp toks e hint hm h
+  intro sp toks e hok hm h
   obtain ⟨pre, y, f, tl, placed, hpre, htl, hyn, hyl, hfne, ⟨hym, hyp, hytb⟩, hpl, htoks⟩ :=
-    phrase_placement_input _ sp toks e _ hint rfl hm h
+    phrase_placement_input _ sp toks e _ hok rfl hm h
   have hmain : AtMainVerb [] tl :=
     ⟨(by intro t ht; cases ht), (by
       intro t ht
@@ -959,19 +996,19 @@ example : (phraseToks reversed4).map (fun r => r.1.map Tok.form) =
 
 /-! ## one finite verb, on the tokens of the whole realized clause -/
 
-/-- **C05 one finite verb, clause level**: in the token list of the realized clause (constituent notation, no
-    interrogative; any subject, verb, tense, complements, passive / progressive / modality / negation / reflexive),
+/-- **C05 one finite verb, clause level**: in the token list of the realized clause (constituent notation, with or
+    without an interrogative; any subject, verb, tense, complements, passive / progressive / modality / negation / reflexive),
     every verb token behind the first one is an infinitive, a past participle, or the participle half of a compound
     tense (`NonFin`): at most one finite form, and it is the first verb -/
 def one_finite_verb_clause : Prop :=
-  ∀ (sp : Spec) (toks : List Tok) (e : Str), sp.typ.int = none → phraseToks sp = .ok (toks, e) →
+  ∀ (sp : Spec) (toks : List Tok) (e : Str), IntOk sp → phraseToks sp = .ok (toks, e) →
     ∀ t ∈ (vts toks).tail, NonFin t
 
 theorem one_finite_verb_clause_holds : one_finite_verb_clause := by
-  intro sp toks e hint h
+  intro sp toks e hok h
   unfold phraseToks at h
   obtain ⟨⟨sel, vp, endS⟩, hty, h⟩ := bindE_ok _ _ _ h
-  obtain ⟨hsel, hvpi, _⟩ := phraseTyped_inv sp sel vp endS hint hty
+  obtain ⟨hsel, b, hvpi⟩ := phraseTyped_inv_any sp sel vp endS hok hty
   simp only at h
   obtain ⟨toks', hreal, h⟩ := bindE_ok _ _ _ h
   simp only [pure, Except.pure, Except.ok.injEq, Prod.mk.injEq] at h
@@ -990,9 +1027,9 @@ def nested4 : Spec :=
     typ := { neg := some .yes, prog := true, mod := some "poss".toList } }
 example : (phraseToks nested4).map (fun r => vts r.1) = .ok [Tense.p, Tense.pc, Tense.b, Tense.b] := by decide
 
-/-! ## the dependency notation: `root(V, subj(..), comp(..)…).typ(..)` (no interrogative)
+/-! ## the dependency notation: `root(V, subj(..), comp(..)…).typ(..)`, with or without an interrogative
 
-`depTyped_inv`: the root verb carries the negation, every other verb is a `post` dependent that is a clean infinitive
+`depTyped_inv_any` (with `processIntDep_inv` for the interrogative): the root verb carries the negation, every other verb is a `post` dependent that is a clean infinitive
 or participle; `depReal_parts`: the flat list handed to `doPronounPlacement` is `verb-free tokens ++ conjugated root ++
 clean tokens`. The contract theorems then apply with the tokens of the `pre` dependents as prefix. -/
 
@@ -1016,7 +1053,7 @@ theorem expectedChainDep_eq (sp : Spec) (h : sp.typ.pas = false ∨ sp.t ≠ .ip
 /-- **C05 nesting, dependency notation**: the root verb followed by the verbs among its dependents, in order, is the
     declared nesting -/
 def nesting_order_dep : Prop :=
-  ∀ (sp : Spec) (v : VT) (deps : List Dep) (e : Str), sp.typ.int = none →
+  ∀ (sp : Spec) (v : VT) (deps : List Dep) (e : Str),
     (∀ m, sp.typ.mod = some m → (modalLemma m).isSome = true) →
     depTyped sp = .ok (v, deps, e) → chainOf (v, deps) = expectedChainDep sp
 
@@ -1069,21 +1106,32 @@ theorem depStageMod_chain (sp : Spec) (s s' : VT × List Dep)
     simp [chainOf, auxLayer, hml, VT.setLemma, hl, depChain, Dep.vc?, mkV, List.filterMap_cons]
 
 theorem nesting_order_dep_holds : nesting_order_dep := by
-  intro sp v deps e hint hmod h
+  intro sp v deps e hmod h
   unfold depTyped at h
   obtain ⟨s2, h2, h⟩ := bindE_ok _ _ _ h
   obtain ⟨s3, h3, h⟩ := bindE_ok _ _ _ h
   obtain ⟨s4, h4, h⟩ := bindE_ok _ _ _ h
-  simp only [hint, pure, Except.pure, Except.ok.injEq, Prod.mk.injEq] at h
-  obtain ⟨rfl, rfl, _⟩ := h
   have c2 := depStagePas_chain sp _ s2 (depElems_inv sp).2.2 h2
   have c3 := depStageProg_chain sp s2 s3 h3
   have c4 := depStageMod_chain sp s3 s4 hmod h4
   have c5 : chainOf ((depStageNeg sp s4).1, (depStageNeg sp s4).2) = chainOf s4 := by
     unfold depStageNeg
     cases sp.typ.neg <;> rfl
-  rw [c5, c4, c3, c2, (depElems_head sp).1, (depElems_head sp).2]
-  rfl
+  have hfin : chainOf s4 = expectedChainDep sp := by
+    rw [c4, c3, c2, (depElems_head sp).1, (depElems_head sp).2]
+    rfl
+  cases hint : sp.typ.int with
+  | none =>
+    simp only [hint, pure, Except.pure, Except.ok.injEq, Prod.mk.injEq] at h
+    obtain ⟨rfl, rfl, _⟩ := h
+    rw [c5, hfin]
+  | some i =>
+    simp only [hint] at h
+    obtain ⟨e1, e2, e3⟩ := depElems_inv sp
+    have h5 := depStageNeg_inv sp s4 (depStageMod_inv sp s3 s4 (depStageProg_inv sp s2 s3
+      (depStagePas_inv sp _ s2 e1 e2 e3 h2) h3) h4)
+    obtain ⟨_, _, c6⟩ := processIntDep_inv i _ v _ deps e h5.2.2 h
+    rw [c6, c5, hfin]
 
 /-- non-vacuity: root « pouvoir », then « être » (progressive), « être » (passive), « donner » -/
 def nestingWitnessDep : Spec :=
@@ -1095,19 +1143,18 @@ example : (depTyped nestingWitnessDep).map (fun r => chainOf (r.1, r.2.1)) =
 
 /-- **C05 one finite verb, dependency notation, clause level** -/
 def one_finite_verb_clause_dep : Prop :=
-  ∀ (sp : Spec) (toks : List Tok) (e : Str), sp.typ.int = none → depToks sp = .ok (toks, e) →
-    ∀ t ∈ (vts toks).tail, NonFin t
+  ∀ (sp : Spec) (toks : List Tok) (e : Str), depToks sp = .ok (toks, e) → ∀ t ∈ (vts toks).tail, NonFin t
 
 theorem one_finite_verb_clause_dep_holds : one_finite_verb_clause_dep := by
-  intro sp toks e hint h
+  intro sp toks e h
   unfold depToks at h
   obtain ⟨⟨v, deps, endS⟩, hty, h⟩ := bindE_ok _ _ _ h
-  obtain ⟨hds, _⟩ := depTyped_inv sp v deps endS hint hty
+  obtain ⟨_, hdi, _⟩ := depTyped_inv_any sp v deps endS hty
   simp only at h
   obtain ⟨toks', hreal, h⟩ := bindE_ok _ _ _ h
   simp only [pure, Except.pure, Except.ok.injEq, Prod.mk.injEq] at h
   obtain ⟨rfl, _⟩ := h
-  exact depReal_one_finite sp.typ.refl v deps toks' hds.2.2 hreal
+  exact depReal_one_finite sp.typ.refl v deps toks' hdi hreal
 
 /-- the root verb inflects (no morphology error), its form is not empty, and `Q` holds of its first token -/
 def FirstVerbDep (Q : VT → Prop) (sp : Spec) : Prop :=
@@ -1121,14 +1168,15 @@ theorem depNextPro_clean (l : List Dep) (q : Tok) (h : depNextPro l = some q) : 
 /-- the list the dependency notation hands to `doPronounPlacement`: verb-free tokens, the first token of the root
     verb (it carries the negation), clean tokens -/
 theorem dep_placement_input (Q : VT → Prop) (sp : Spec) (toks : List Tok) (e : Str) (w : Option Str)
-    (hint : sp.typ.int = none) (hw : sp.typ.neg.map NegV.word2 = w) (hf : FirstVerbDep Q sp)
+    (hw : sp.typ.neg.map NegV.word2 = w) (hf : FirstVerbDep Q sp)
     (h : depToks sp = .ok (toks, e)) :
-    ∃ pre y f tl, (∀ t ∈ pre, t.isV = false) ∧ (∀ t ∈ tl, TokTailOk t) ∧ y.neg2 = w ∧ y.lier = false ∧
+    ∃ pre y f tl, (∀ t ∈ pre, t.isV = false) ∧ (∀ t ∈ tl, TokTailOk t) ∧ y.neg2 = w ∧
+      (sp.typ.int = none → y.lier = false) ∧
       f ≠ [] ∧ Q y ∧ placePronouns sp.typ.refl (pre ++ .v y f :: tl) = .ok toks := by
   unfold depToks at h
   obtain ⟨⟨v, deps, endS⟩, hty, h⟩ := bindE_ok _ _ _ h
-  obtain ⟨⟨hvn, hvl, hdi⟩, _⟩ := depTyped_inv sp v deps endS hint hty
-  simp only at h hvn hvl hdi
+  obtain ⟨hvn, hdi, hvl⟩ := depTyped_inv_any sp v deps endS hty
+  simp only at h
   obtain ⟨toks', hreal, h⟩ := bindE_ok _ _ _ h
   simp only [pure, Except.pure, Except.ok.injEq, Prod.mk.injEq] at h
   obtain ⟨rfl, _⟩ := h
@@ -1138,10 +1186,10 @@ theorem dep_placement_input (Q : VT → Prop) (sp : Spec) (toks : List Tok) (e :
   rw [hrve] at hcv
   simp only [List.cons.injEq] at hcv
   obtain ⟨rfl, rfl⟩ := hcv
-  have hy : y.neg2 = w ∧ y.lier = false := by
+  have hy : y.neg2 = w ∧ (sp.typ.int = none → y.lier = false) := by
     rcases hhd with ⟨l, c, hq⟩ | ⟨y', f', hq, h1, h2, _⟩
     · cases hq
-    · cases hq; exact ⟨by rw [h1, hvn, hw], by rw [h2, hvl]⟩
+    · cases hq; exact ⟨by rw [h1, hvn, hw], fun hi => by rw [h2, hvl hi]⟩
   have hroot : rootIsVToks rv.1 = true := by rw [hrve]; cases tl0 <;> rfl
   simp only [hroot, if_true] at hfin
   have hfe : (Tok.v y f).form.isEmpty = false := by cases hf' : f <;> simp_all [Tok.form]
@@ -1170,35 +1218,38 @@ def FirstVerbDepFinite (sp : Spec) : Prop := FirstVerbDep (fun y => y.t ≠ .b) 
 /-- **C05 `ne`, clause level, dependency notation** -/
 def ne_position_clause_dep : Prop :=
   ∀ (sp : Spec) (nv : NegV) (toks : List Tok) (e : Str),
-    sp.typ.int = none → sp.typ.neg = some nv → FirstVerbDepFinite sp → depToks sp = .ok (toks, e) →
+    sp.typ.neg = some nv → FirstVerbDepFinite sp → depToks sp = .ok (toks, e) →
     ∃ a cs x f b, toks = a ++ .adv ne :: cs ++ .v x f :: b ∧ (∀ c ∈ cs, IsCliticFn c) ∧ (∀ t ∈ a, t.isV = false) ∧
       x.neg2 = none
 
 theorem ne_position_clause_dep_holds : ne_position_clause_dep := by
-  intro sp nv toks e hint hneg hf h
+  intro sp nv toks e hneg hf h
   obtain ⟨pre, y, f, tl, hpre, htl, hyn, _, _, hyt, hpl⟩ :=
-    dep_placement_input _ sp toks e (some nv.word2) hint (by simp [hneg]) hf h
+    dep_placement_input _ sp toks e (some nv.word2) (by simp [hneg]) hf h
   obtain ⟨cs, after, hout, hcs⟩ := ne_position_holds sp.typ.refl pre tl y f nv.word2 toks (atFirst_of pre tl hpre htl)
     hyn hyt hpl
   exact ⟨pre, cs, { y with neg2 := none }, f, after, hout, hcs, hpre, rfl⟩
 
-/-- **C05 second negative word, clause level, dependency notation** -/
+/-- **C05 second negative word, clause level, dependency notation**: right after the verb — behind the inverted
+    subject pronoun when the clause is an interrogative with inversion (at most one token in between, none without
+    an interrogative) -/
 def neg2_position_clause_dep : Prop :=
   ∀ (sp : Spec) (nv : NegV) (toks : List Tok) (e : Str),
-    sp.typ.int = none → sp.typ.neg = some nv → FirstVerbDepFinite sp → depToks sp = .ok (toks, e) →
-    ∃ a x f b, toks = a ++ .v x f :: .q nv.word2 :: b ∧ (∀ t ∈ a, t.isV = false)
+    sp.typ.neg = some nv → FirstVerbDepFinite sp → depToks sp = .ok (toks, e) →
+    ∃ a x f mid b, toks = a ++ .v x f :: mid ++ .q nv.word2 :: b ∧ (∀ t ∈ a, t.isV = false) ∧ mid.length ≤ 1 ∧
+      (sp.typ.int = none → mid = [])
 
 theorem neg2_position_clause_dep_holds : neg2_position_clause_dep := by
-  intro sp nv toks e hint hneg hf h
+  intro sp nv toks e hneg hf h
   obtain ⟨pre, y, f, tl, hpre, htl, hyn, hyl, _, hyt, hpl⟩ :=
-    dep_placement_input _ sp toks e (some nv.word2) hint (by simp [hneg]) hf h
+    dep_placement_input _ sp toks e (some nv.word2) (by simp [hneg]) hf h
   obtain ⟨before, mid, after, hout, hmid, hbefore⟩ := neg2_position_finite_holds sp.typ.refl pre tl y f nv.word2 toks
     (atFirst_of pre tl hpre htl) hyn hyt hpl
-  have hmid0 : mid = [] := by
-    rw [hyl] at hmid
+  refine ⟨before, { y with neg2 := none }, f, mid, after, hout, hbefore, ?_, ?_⟩
+  · split at hmid <;> omega
+  · intro hi
+    rw [hyl hi] at hmid
     cases mid <;> simp_all
-  subst hmid0
-  exact ⟨before, { y with neg2 := none }, f, after, by simpa using hout, hbefore⟩
 
 def FirstVerbDepMain (sp : Spec) : Prop :=
   FirstVerbDep (fun y => y.isMod = false ∧ y.isProg = false ∧ tableFor y ≠ .ipPos) sp
@@ -1206,13 +1257,13 @@ def FirstVerbDepMain (sp : Spec) : Prop :=
 /-- **C05 clitic order, clause level, dependency notation** -/
 def clitic_order_clause_dep : Prop :=
   ∀ (sp : Spec) (toks : List Tok) (e : Str),
-    sp.typ.int = none → FirstVerbDepMain sp → depToks sp = .ok (toks, e) →
+    FirstVerbDepMain sp → depToks sp = .ok (toks, e) →
     ∃ a run x f b tb, toks = a ++ run ++ .v x f :: b ∧ (∀ t ∈ a ++ run, t.isV = false) ∧ SortedBy (rankOf tb) run
 
 theorem clitic_order_clause_dep_holds : clitic_order_clause_dep := by
-  intro sp toks e hint hm h
+  intro sp toks e hm h
   obtain ⟨pre, y, f, tl, hpre, htl, _, _, _, ⟨hym, hyp, hytb⟩, hpl⟩ :=
-    dep_placement_input _ sp toks e _ hint rfl hm h
+    dep_placement_input _ sp toks e _ rfl hm h
   have hmain : AtMainVerb pre tl :=
     ⟨(by
       intro t ht
@@ -1283,5 +1334,60 @@ example : FirstVerbDepMain reversed4 := by
   exact ⟨y, f, tl, a, b, c'.1.1, c'.1.2, c'.2⟩
 example : (depToks reversed4).map (fun r => r.1.map Tok.form) =
     .ok ["il".toList, "ne".toList, "le".toList, "lui".toList, "y".toList, "en".toList, "donne".toList, "pas".toList] := by decide
+
+/-- the guard « already elided » of loop 2 since commit c4595d2: the first word of the realization, so a tag or a
+    punctuation sign attached to the pronoun no longer hides the apostrophe -/
+example : elidedForm "<i>l'</i>.".toList = true ∧ elidedForm "l'".toList = true ∧ elidedForm "le".toList = false ∧
+    elidedForm "le.'".toList = false := by decide
+
+/-! ## the host of the clitics under the nesting [modal] [être en train de] [… verb] -/
+
+/-- **C05 clitic host**: when the verbs in front are all modality / progressive auxiliaries (they carry the flag
+    `isMod` / `isProg` that `processTyp_verb` sets and copies), every clitic the scan reaches — together with `ne` and
+    the reflexive pronoun — is put immediately before the FIRST verb that is not such an auxiliary, behind all of them:
+    « Il peut être en train de la lui donner » -/
+def clitic_host : Prop :=
+  ∀ (refl : Bool) (pre post : List Tok) (x : VT) (f : Str) (out : List Tok),
+    AtMainVerb pre post → x.isMod = false → x.isProg = false → tableFor x ≠ .ipPos →
+    placePronouns refl (pre ++ .v x f :: post) = .ok out →
+    ∃ run x' after, out = pre ++ run ++ .v x' f :: after ∧ (∀ t ∈ run, t.isV = false) ∧
+      (∀ c ∈ (collect post).1, c ∈ run)
+
+theorem clitic_host_holds : clitic_host := by
+  intro refl pre post x f out hmain hm hp htb h
+  rw [place_first_verb refl pre post x f (atMain_onlyAux hmain) hp hm (atMain_noAuxNeg hmain x f hm hp)] at h
+  cases hr : isReflexive x refl with
+  | error e => simp [hr, Except.bind] at h
+  | ok isR =>
+    simp only [hr, Except.bind, Except.ok.injEq] at h
+    refine ⟨prosOf x isR (lastProg none pre) (collect post).1, (if x.t = Tense.b then x else { x with neg2 := none }),
+      (match x.neg2 with
+        | some w => if x.t = Tense.b then (collect post).2 else pyInsert (if x.lier = true then 1 else 0) (Tok.q w) (collect post).2
+        | none => (collect post).2), ?_, ?_, ?_⟩
+    · rw [← h]
+      simp [placedAt, htb]
+      cases x.neg2 <;> rfl
+    · intro t ht
+      unfold prosOf at ht
+      rw [sortPros_mem] at ht
+      exact prosRaw_noV x isR _ _ (collect_fst_clitic post) t ht
+    · intro c hc
+      unfold prosOf
+      rw [sortPros_mem]
+      unfold prosRaw
+      exact List.mem_append_right _ hc
+
+/-- non-vacuity with an interrogative: « ne le lui donne-t-il pas ? » (the inverted pronoun stands between the verb and
+    « pas »: `mid` of `neg2_position_clause_dep` has one token) -/
+def neLeLuiDonneTIlPas : Spec := { ilLuiLe with typ := { neg := some .yes, int := some "yon".toList } }
+example : firstVerbDepB (fun y => y.t != .b) neLeLuiDonneTIlPas = true := by decide
+example : (depToks neLeLuiDonneTIlPas).map (fun r => r.1.map Tok.form) =
+    .ok ["ne".toList, "le".toList, "lui".toList, "donne".toList, "il".toList, "pas".toList] := by decide
+
+/-- non-vacuity with an interrogative, constituent notation: « ne le lui donne-t-il pas ? », « pourquoi … » -/
+example : IntOk neLeLuiDonneTIlPas := fun _ _ _ => ⟨rfl, rfl⟩
+example : firstVerbFiniteB neLeLuiDonneTIlPas = true := by decide
+example : (phraseToks neLeLuiDonneTIlPas).map (fun r => r.1.map Tok.form) =
+    .ok ["ne".toList, "le".toList, "lui".toList, "donne".toList, "il".toList, "pas".toList] := by decide
 
 end Pyrealb.C05
